@@ -583,6 +583,9 @@ func c34Custom(d *run.Driver, id string) {
 	}
 	close(ch)
 	wg.Wait()
+	if c34EmptyPath != "" {
+		os.RemoveAll(c34EmptyPath)
+	}
 }
 
 func c34Exec(c run.Case, id, d2bin string) (res run.Result) {
